@@ -108,5 +108,20 @@ fn main() {
     // cumulative option number overflow
     check_bytes(&[0x40, 1, 0, 0, 0xe0, 0xfe, 0xf2, 0xe0, 0x00, 0x00]);
     check_bytes(&[0x40, 1, 0, 0, 0xe0, 0xfe, 0xf2, 0x10]);
+    // C01: header fields and token set repeatedly, in any order, on one packet (setters must replace, not accumulate)
+    {
+        use coap_lite::{MessageType, Packet};
+        for (t1, t2) in [(4usize, 2usize), (8, 0), (0, 8), (3, 5), (1, 1)] { for (ty1, ty2) in [(MessageType::Reset, MessageType::Confirmable), (MessageType::NonConfirmable, MessageType::Acknowledgement)] {
+            let mut p = Packet::new();
+            p.header.set_version(3); p.set_token((0..t1 as u8).collect()); p.header.set_type(ty1);
+            p.header.set_version(1); p.header.set_type(ty2); p.set_token((10..10 + t2 as u8).collect());
+            p.header.message_id = 0x0102;
+            let want_vtt = (1u8 << 6) | (match ty2 { MessageType::Confirmable => 0u8, MessageType::NonConfirmable => 1, MessageType::Acknowledgement => 2, MessageType::Reset => 3 } << 4) | t2 as u8;
+            match p.to_bytes() {
+                Ok(b) if b[0] == want_vtt && b[4..] == (10..10 + t2 as u8).collect::<Vec<u8>>()[..] => {}
+                other => found("setters-accumulate", &format!("token {} then {} bytes, type set twice: first byte expected {:#04x}, encoded {:?}", t1, t2, want_vtt, other.map(|b| b.iter().map(|x| format!("{:02x}", x)).collect::<String>()))),
+            }
+        } }
+    }
     println!("NONE");
 }
